@@ -702,6 +702,10 @@ def place_st(draw):
 @st.composite
 def base_case(draw, allow_drop=True, nmax=16):
     spec = draw(gmesh.mesh_spec(kinds=KINDS, max_parts=2, jitter=True, max_faces=200))
+    # every template has bounding radius < 4 at scale 1 and parts are scaled by <= 2: 24 apart is disjoint (the 12 of
+    # gen.meshes lets two scale-2 tori overlap, which makes inside/outside of the union ambiguous)
+    for i, part in enumerate(spec["parts"]):
+        part["offset"] = [24.0 * i, 0.0, 0.0]
     case = {"mesh": spec, "place": draw(place_st()), "seed": draw(st.integers(0, 2**31 - 1)), "n": draw(st.integers(1, nmax))}
     if allow_drop and draw(st.integers(0, 4)) == 0:
         case["drop"] = draw(st.lists(st.integers(0, 400), min_size=1, max_size=4))
